@@ -16,7 +16,8 @@ GEN = ["Cond", "Valid"]
 RULE = ("collections of 1..5 rules (detection names from a pool with keyword-prefixed, digit-leading and underscore-prefixed "
         "names; conditions with identifiers, them, patterns that match / match nothing; duplicate ids, titles and file names "
         "in any multiplicity) x random subsets and orders of the built-in validators x two rule orders x exclusion tables; "
-        "validation before vs after conversion; distinct = distinct (collection, validator order); non-trivial = >= 2 rules")
+        "validation before vs after conversion; distinct = distinct (collection, validator order); non-trivial = >= 2 rules"
+        "; list-valued attributes in unsorted order; verbatim copies of a rule under two directories")
 ASSUMPTIONS = [
     "validators needing network data (MITRE ATT&CK / D3FEND tag validators) are excluded from the validator pool",
     "issues are compared as (class, set of rule titles, extra fields) multisets",
